@@ -2,6 +2,7 @@ package main
 
 import (
 	"go/types"
+	"strings"
 )
 
 func fieldIndex(t types.Type, name string) int {
@@ -160,6 +161,14 @@ func init() {
 		fr.m.clock++
 		// time.Time{wall uint64, ext int64, loc *Location}
 		return structure{BV(64, 0), BV(64, 63000000000+fr.m.clock), (*value)(nil)}
+	})
+	add("time.After", func(fr *frame, a []value) value {
+		// a timer channel that has already fired (time is not the subject of any property)
+		return &chanV{cap: 1, buf: []value{structure{BV(64, 0), BV(64, 0), (*value)(nil)}}, elemT: fr.fn.Signature.Results().At(0).Type().Underlying().(*types.Chan).Elem()}
+	})
+	add("time.Since", func(fr *frame, a []value) value { return BV(64, 1000) })
+	add("strings.Contains", func(fr *frame, a []value) value {
+		return Bool(strings.Contains(strOf(a[0]), strOf(a[1])))
 	})
 	add("github.com/hashicorp/go-hclog.Default", func(fr *frame, a []value) value { return iface{t: nullObjType, v: structure{}} })
 }
